@@ -174,6 +174,43 @@ def rule_pandas(ctx):
                       "not the JSON text Snowflake returns for VARIANT/OBJECT/ARRAY")
 
 
+def rule_pandas_target(ctx):
+    """C01.c2: write_pandas writes to <database>.<schema>.<table> built from its arguments, in that order."""
+    prog = ctx.prog
+    m = prog.mod("pandas_tools")
+    fn = prog.fn("pandas_tools", "write_pandas")
+    for with_db, with_schema in ((True, True), (False, True), (False, False)):
+        hooks = []
+
+        def fac():
+            h = ExecHooks(None)
+            hooks.append(h)
+            return h
+
+        def run(I, with_db=with_db, with_schema=with_schema):
+            from ..execmodel import make_session
+            duck, conn, cur = make_session()
+            kw = {}
+            if with_db:
+                kw["database"] = Sym("DATABASE", typ="str", truthy=True)
+            if with_schema:
+                kw["schema"] = Sym("SCHEMA", typ="str", truthy=True)
+            return I.call(I.global_lookup("pandas_tools", "write_pandas"), [conn, Obj("df", kind="df"), Sym("TABLE_NAME", typ="str", truthy=True)], kw, None)
+
+        want = ("{DATABASE}." if with_db else "") + ("{SCHEMA}." if with_schema else "") + "{TABLE_NAME}"
+        for p, h in zip(explore(prog, fac, run, max_paths=16), hooks):
+            if p.outcome != "return" or not h.calls:
+                continue
+            txt = h.calls[0][0].text() if isinstance(h.calls[0][0], Str) else tagof(h.calls[0][0])
+            ok = txt.startswith(f"INSERT INTO {want}(")
+            ctx.ob("C01.c", f"write_pandas(database={with_db}, schema={with_schema}) inserts into {want}", ok, m.loc(fn), txt[:70])
+            if not ok:
+                ctx.violation("C01.c", "pandas_tools", "write_pandas", f"target for database={with_db} schema={with_schema}", m.loc(fn),
+                              f"write_pandas builds the target `{txt[:60]}`; with these arguments the rows belong in `{want}` — they are written to "
+                              f"another table (or the statement fails)")
+            break
+
+
 def rule_transformed_before_executed(ctx):
     prog = ctx.prog
     n = 0
@@ -214,5 +251,6 @@ RULES = [
     ("C01.a", rule_width, ("quick", "thorough")),
     ("C01.b", rule_utc, ("quick", "thorough")),
     ("C01.c", rule_pandas, ("quick", "thorough")),
+    ("C01.c2", rule_pandas_target, ("quick", "thorough")),
     ("C01.d", rule_transformed_before_executed, ("quick", "thorough")),
 ]
